@@ -1,8 +1,9 @@
 (* Extraction of the C19 model for the correspondence driver.  ExtrOcamlBasic and
    ExtrOcamlString only: N, Z, positive, nat stay the extracted inductive datatypes. *)
-From SV Require Import Base.Prelude Model.Sched Model.MergeChan.
+From SV Require Import Base.Prelude Model.Sched Model.MergeChan Model.MetaUpdate.
 Require Extraction.
 Require Import ExtrOcamlBasic ExtrOcamlString.
 Extraction Language OCaml.
 Extraction "../ocaml/c19/model.ml" init step run run_op run_ops spec_check a_init stress_ok
-  Z.to_N N.to_nat N.of_nat.
+  Z.to_N N.to_nat N.of_nat
+  trace_mops run_mops h_init view model_status status_ok requested latest_peers.
